@@ -233,6 +233,30 @@ func (w *W) LibTasks() []simrt.TaskInfo {
 	return out
 }
 
+// QuietCheck runs the clock for d after everything was closed: no library
+// goroutine may start and no library timer may fire any more.
+func (w *W) QuietCheck(d time.Duration) {
+	if w.Failed() || w.Free {
+		return
+	}
+	n0, _ := w.World.LibBirths()
+	// in stages: a leaked periodic timer (a redialling dialer) is seen after
+	// the first short stage, before it has burnt the run's step budget
+	var total time.Duration
+	for _, st := range []time.Duration{200 * time.Millisecond, 2 * time.Second, 20 * time.Second, d} {
+		if st > d || total >= d {
+			break
+		}
+		w.Sleep(st - total)
+		total = st
+		w.Settle()
+		if n1, site := w.World.LibBirths(); n1 != n0 {
+			w.Failf("C10/activity-after-close:"+site, "every socket has been closed and the clock ran 30s on; during the following %v %d library goroutines / timer callbacks came to life (latest started at %s): a timer or goroutine belonging to the closed sockets remained", total, n1-n0, site)
+			return
+		}
+	}
+}
+
 // ------------------------------------------------------------------ misc
 
 func (w *W) ResetProcessState(idStart uint32) {
